@@ -558,8 +558,14 @@ impl Space for Faults {
     }
     fn run(&self, id: u64, ctx: &mut Ctx) -> CaseResult {
         let (what, b) = self.decode(id);
+        judge_faulted(&self.bytes, &what, &b, ctx)
+    }
+}
+
+fn judge_faulted(original: &[u8], what: &str, b: &[u8], ctx: &mut Ctx) -> CaseResult {
+    {
         ctx.transitions += 1;
-        match load_bytes(&b, None) {
+        match load_bytes(b, None) {
             Err(panic) => {
                 let site = super::sweep::panic_site(&panic);
                 Err(Violation::new(format!("load-panics-on-malformed-file:{}", site), format!("{}: {}", what, panic)))
@@ -575,7 +581,7 @@ impl Space for Faults {
                 ensure!(d.P.m == d.n && d.P.n == d.n && d.A.n == d.n && d.A.m == d.m && d.q.len() == d.n && d.b.len() == d.m, "loaded-solver-inconsistent-dims", "{}", what);
                 let rows: usize = d.cones.iter().map(|c| ConeRows::rows(c)).sum();
                 ensure!(rows == d.m, "loaded-solver-cones-inconsistent", "{}", what);
-                if b == self.bytes {
+                if b == original {
                     ctx.outcome("fault-is-identity");
                 } else {
                     ctx.outcome("another-valid-file");
@@ -594,6 +600,107 @@ impl Space for Faults {
                 Ok(())
             }
         }
+    }
+}
+
+// ----------------------------------------------------------------------
+// index faults: every integer of the two matrix encodings replaced by every value of a menu around the
+// dimensions (a byte-level substitution reaches few of these; bases with single-entry and empty columns)
+// ----------------------------------------------------------------------
+pub struct IndexFaults {
+    pub which: usize,
+    bytes: Vec<u8>,
+    doc: Value,
+    sites: Vec<(String, String, Option<usize>)>,
+    menu: Vec<u64>,
+}
+impl IndexFaults {
+    pub fn new(which: usize) -> Self {
+        use ConeSpec::*;
+        let mk = |cones: Vec<ConeSpec>, n: usize, pd: &[f64], a: &[(usize, usize, f64)], b: Vec<f64>, q: Vec<f64>| {
+            let m = cones_numel(&cones);
+            let mut p = Dense::zeros(n, n);
+            for (i, v) in pd.iter().enumerate() {
+                p.set(i, i, *v);
+            }
+            let mut am = Dense::zeros(m, n);
+            for (i, j, v) in a {
+                am.set(*i, *j, *v);
+            }
+            Prob { n, m, p, p_full: false, q, a: am, b, cones }
+        };
+        let p = match which {
+            // every column of A and two of P hold exactly one entry; P has an empty column
+            0 => mk(vec![NN(3)], 3, &[1.0, 0.0, 2.0], &[(0, 0, -1.0), (1, 1, -1.0), (2, 2, -1.0)], vec![1.0, 1.0, 1.0], vec![1.0, 1.0, 1.0]),
+            // an empty column in A, single-entry columns, a two-entry column
+            1 => mk(vec![Zero(1), NN(3)], 3, &[0.0, 1.0, 1.0], &[(0, 0, 1.0), (1, 0, -1.0), (2, 1, -1.0)], vec![1.0, 2.0, 1.0, 1.0], vec![1.0, 1.0, 0.0]),
+            _ => planted(&[NN(2), SOC(3)], 2, 5, 0, 0, 1, &p_menu(2)[3], false),
+        };
+        let mut st = DefaultSettings::<f64>::default();
+        st.verbose = false;
+        let solver = p.build(st);
+        let bytes = save_bytes(&solver).expect("save");
+        let doc: Value = serde_json::from_slice(&bytes).expect("own file parses");
+        let mut sites = vec![];
+        let mut menu: Vec<u64> = vec![0, 1, 2, 1_000_000, u32::MAX as u64 + 1];
+        for mat in ["P", "A"] {
+            for f in ["m", "n"] {
+                sites.push((mat.to_string(), f.to_string(), None));
+                let v = doc[mat][f].as_u64().unwrap();
+                menu.extend([v.saturating_sub(1), v, v + 1]);
+            }
+            for f in ["colptr", "rowval"] {
+                let len = doc[mat][f].as_array().unwrap().len();
+                for k in 0..len {
+                    sites.push((mat.to_string(), f.to_string(), Some(k)));
+                }
+                menu.extend([len as u64, len as u64 + 1]);
+            }
+        }
+        menu.sort();
+        menu.dedup();
+        Self { which, bytes, doc, sites, menu }
+    }
+    fn decode(&self, id: u64) -> (String, Vec<u8>) {
+        let mut d = Digits(id);
+        let v = *d.pick(&self.menu);
+        let (mat, f, k) = d.pick(&self.sites).clone();
+        let mut doc = self.doc.clone();
+        let what = match k {
+            Some(k) => {
+                let old = doc[&mat][&f][k].clone();
+                doc[&mat][&f][k] = json!(v);
+                format!("{}.{}[{}]: {} -> {}", mat, f, k, old, v)
+            }
+            None => {
+                let old = doc[&mat][&f].clone();
+                doc[&mat][&f] = json!(v);
+                format!("{}.{}: {} -> {}", mat, f, old, v)
+            }
+        };
+        (what, serde_json::to_vec(&doc).unwrap())
+    }
+}
+impl Space for IndexFaults {
+    fn name(&self) -> String {
+        format!("file-index-faults-{}", self.which)
+    }
+    fn size(&self) -> u64 {
+        (self.menu.len() * self.sites.len()) as u64
+    }
+    fn describe(&self, id: u64) -> Value {
+        let (what, b) = self.decode(id);
+        json!({"fault": what, "file": String::from_utf8_lossy(&b)})
+    }
+    fn bound(&self) -> Value {
+        json!({"sites": self.sites.len(), "values": self.menu, "faults": "every integer of P and A (m, n, colptr[k], rowval[k]) replaced by every menu value"})
+    }
+    fn run(&self, id: u64, ctx: &mut Ctx) -> CaseResult {
+        let (what, b) = self.decode(id);
+        // the reference for "fault is identity" is the re-serialised unchanged document
+        let same = serde_json::to_vec(&self.doc).unwrap();
+        let _ = &self.bytes;
+        judge_faulted(&same, &what, &b, ctx)
     }
 }
 
@@ -624,6 +731,9 @@ pub fn spaces(tier: &str, _seed: u64) -> Vec<Box<dyn Space>> {
     }
     for w in 0..(if thorough { 4 } else { 2 }) {
         v.push(Box::new(Faults::new(w)));
+    }
+    for w in 0..3 {
+        v.push(Box::new(IndexFaults::new(w)));
     }
     v
 }
